@@ -14,6 +14,7 @@ import (
 	"go/constant"
 	"go/token"
 	"go/types"
+	"regexp"
 	"sort"
 	"strings"
 
@@ -499,6 +500,9 @@ func (w *dtWalker) leave(st *dtState, ret *ssa.Return) {
 			default:
 				if cv, ok := w.constOfVal(st, rv); ok {
 					rs = append(rs, dtRes{key: cv.ExactString(), c: cv})
+				} else if ek := w.errClassKey(rv); ek != "" {
+					// an error built inside the inlined helper reads like one built in place
+					rs = append(rs, dtRes{key: ek})
 				} else if k := w.keyOf(st, rv); k != "" && k != "?" {
 					rs = append(rs, dtRes{key: k})
 				} else {
@@ -530,10 +534,16 @@ func (w *dtWalker) describeRet(st *dtState, v ssa.Value) string {
 		}
 	}
 	if k := w.keyOf(st, v); k != "" {
+		// an error built inside an inlined helper: fmt.Errorf("%w: ...",{*global:ErrX ...}) reads like one built in place
+		if m := inlinedErrwrapRe.FindStringSubmatch(k); m != nil {
+			return "errwrap:" + m[1]
+		}
 		return k
 	}
 	return "?"
 }
+
+var inlinedErrwrapRe = regexp.MustCompile(`^fmt\.Errorf\("%w[^"]*",\{\*global:(Err\w+)[,}]`)
 
 // addrKey: key of an address (field chain / alloc).
 func (w *dtWalker) addrKey(st *dtState, a ssa.Value) string {
@@ -1422,6 +1432,28 @@ func (p *dtPath) Lit(key string) string {
 		}
 		if t, ok := relAliases(k, v == "true")[key]; ok {
 			return fmt.Sprint(t)
+		}
+	}
+	return ""
+}
+
+// errClassKey: the class key ("errwrap:ErrX" / "err:ErrX") of an error value built by fmt.Errorf("%w", sentinel) or
+// loaded from a sentinel; "" otherwise.
+func (w *dtWalker) errClassKey(v ssa.Value) string {
+	if !isErrorType(v.Type()) {
+		return ""
+	}
+	if _, isCall := v.(*ssa.Call); !isCall {
+		if _, isUn := v.(*ssa.UnOp); !isUn {
+			return ""
+		}
+	}
+	for _, cl := range returnErrClasses(v, 0) {
+		if cl.wraps != nil {
+			return "errwrap:" + cl.wraps.Name()
+		}
+		if cl.global != nil {
+			return "err:" + cl.global.Name()
 		}
 	}
 	return ""
